@@ -124,6 +124,9 @@ func c01(ctx *run.Ctx) {
 			if !ctx.Quick() {
 				lengths = append(lengths, 400)
 			}
+			if ci == 0 {
+				lengths = append(lengths, 4400) // beyond any block of 4096 values
+			}
 			if ci <= 1 {
 				lengths = append(lengths, 1100+1000*ci) // long series: drift / periodic resynchronisation of running state
 			}
